@@ -295,6 +295,26 @@ def check_triggers(ctx: Ctx, only) -> None:
             ctx.check(poly_of(tt) == tsrc or key(tt) == tsrc, tf, tf.node, f"{q}: occurrence time", tsrc, poly_of(tt))
             ext = [e for e in p.events if e.kind == "call" and e.name == "extend"]
             got = [key(strip_ver(e.args[0])) for e in ext]
+            lps0 = loops(p)
+            if not ext and lps0:
+                # the selection written as one list: [*hooks[None], *hooks[time]] with an empty list standing in for an absent bucket
+                from ..kit import alloc_literal
+
+                it0 = lps0[0].iter
+                lit0 = alloc_literal(p, it0) if it0 is not None else None
+                lit0 = lit0 if lit0 is not None else (strip_ver(it0) if it0 is not None and strip_ver(it0)[0] == "list" else None)
+                if lit0 is not None and lit0[0] == "list" and all(x[0] == "star" for x in lit0[1]):
+                    parts = []
+                    for x in lit0[1]:
+                        inner = alloc_literal(p, x[1]) or strip_ver(x[1])
+                        if inner[0] == "list" and not inner[1]:
+                            continue
+                        parts.append(key(strip_ver(x[1])))
+                    got = parts
+
+                    class _E:  # noqa: N801
+                        recv = it0
+                    ext = [_E() for _ in parts]  # type: ignore[misc]
             want = ([key(("sub", slot, NONE))] if none_in[0] else []) + ([key(("sub", slot, tt))] if tpol else [])
             lps = loops(p)
             if any(e.term == l.iter and e.site.targets and any(isinstance(x, (ast.Yield, ast.YieldFrom)) for t_ in e.site.targets for x in ast.walk(t_.node)) for l in lps for e in calls(p, into_loops=False)):
